@@ -220,10 +220,22 @@ func Run(e *core.Env) {
 			names = append(names, "LZWDecode")
 			parms = append(parms, pdf.Dict{"EarlyChange": pdf.Integer(0)})
 			baseDesc = "lzw bomb"
-		case 2: // CCITT: tiny body, huge columns
-			body = bytes.Repeat([]byte{0x00, 0x10, 0x01}, 1+t.Draw("bomb.n", 20))
+		case 2: // CCITT: small body that encodes rows cheaply, huge declared geometry
+			fillByte := byte(tape.Pick(t, "bomb.fill", 0xff, 0x00, 0x10, 0x80))
+			body = bytes.Repeat([]byte{fillByte}, 64<<t.Draw("bomb.shift", 7))
+			if t.Bool("bomb.pattern", 1, 4) {
+				body = bytes.Repeat([]byte{0x00, 0x10, 0x01}, 1+t.Draw("bomb.n", 20))
+			}
+			pd := pdf.Dict{"K": pdf.Integer(tape.Pick(t, "bomb.K", int64(-1), 0, 1)),
+				"Columns": pdf.Integer(tape.Pick(t, "bomb.cols", int64(1<<20), 65535, 1<<31, 100000, 1<<16))}
+			if rows := tape.Pick(t, "bomb.rows", int64(0), 1<<20, 65535, 1<<16, 1<<31); rows != 0 {
+				pd["Rows"] = pdf.Integer(rows)
+			}
+			if t.Bool("bomb.noeob", 1, 3) {
+				pd["EndOfBlock"] = pdf.Boolean(false)
+			}
 			names = append(names, "CCITTFaxDecode")
-			parms = append(parms, pdf.Dict{"K": pdf.Integer(-1), "Columns": pdf.Integer(tape.Pick(t, "bomb.cols", int64(1<<20), 65535, 1<<31, 100000))})
+			parms = append(parms, pd)
 			baseDesc = "ccitt bomb"
 		default: // JPEG claiming huge dimensions
 			body = jpegSample(t)
